@@ -1,5 +1,290 @@
-/- Engine `save` (C12): not built yet. -/
+/-
+  Engine `save` (C12) and, through `Driver.OrderEngine`, `order` (C13).
+  Op line:  <mode> <app> <descriptor> <history> <x1> <x2>      (see harness/save.cpp)
+  The descriptor instantiates the Lean `App`:
+     appid | param;param;… | walk;… | tree;…
+     param = addr,kind,dflt,guards,anc,canon      (rank order)
+     walk  = s<idx> | a<base>:<first>:<len>
+     tree  = depth,namehex,enabledByHex|-,dependsHex|-,defaultDependsHex|-   (pre-order)
+-/
+import RtoscModel.Save.Save
+import RtoscModel.Save.Apropos
 import Driver.Common
 namespace Driver.SaveEngine
-def engine : Driver.Engine := Driver.stateless (fun _ => "unimplemented")
+open Rtosc Rtosc.Save
+
+def splitC (s : String) (c : Char) : List String := s.splitOn (String.singleton c)
+
+def hexToPath (s : String) : Option Path :=
+  if s = "" then some [] else (ofHex s).map fun bs => bs.map fun b => Char.ofNat b.toNat
+
+def hexToBytes (s : String) : Option (List UInt8) :=
+  if s = "" then some [] else ofHex s
+
+def hexNat (s : String) : Option Nat :=
+  s.toList.foldlM (fun n c => (hexVal c).map fun d => n * 16 + d) 0
+
+def parseVal (s : String) : Option Val :=
+  match s.toList with
+  | 'i' :: r => (String.ofList r).toInt?.map Val.int
+  | 'c' :: r => (String.ofList r).toInt?.map Val.chr
+  | 'f' :: r => (hexNat (String.ofList r)).map fun n => Val.flt (UInt32.ofNat n)
+  | ['T'] => some (.bool true)
+  | ['F'] => some (.bool false)
+  | 'S' :: r => (hexToPath (String.ofList r)).map Val.sym
+  | 's' :: r => (hexToBytes (String.ofList r)).map Val.str
+  | _ => none
+
+def optInt (s : String) : Option (Option Int) :=
+  if s = "" then some none else s.toInt?.map some
+
+def optFlt (s : String) : Option (Option UInt32) :=
+  if s = "" then some none else (hexNat s).map fun n => some (UInt32.ofNat n)
+
+def parseKind (s : String) : Option Kind :=
+  match s.toList with
+  | 'I' :: r => match splitC (String.ofList r) ':' with
+    | [a, b] => do pure (.int (← optInt a) (← optInt b))
+    | _ => none
+  | 'H' :: r => match splitC (String.ofList r) ':' with
+    | [a, b] => do pure (.ichar (← optInt a) (← optInt b))
+    | _ => none
+  | ['C'] => some .chr
+  | 'X' :: r => match splitC (String.ofList r) ':' with
+    | [a, b] => do pure (.flt (← optFlt a) (← optFlt b))
+    | _ => none
+  | ['T'] => some .tog
+  | 'O' :: r => some (.opt ((splitC (String.ofList r) '.').map String.toList))
+  | 'Z' :: r => (String.ofList r).toNat?.map Kind.str
+  | _ => none
+
+def parseDflt (s : String) : Option Dflt :=
+  match s.toList with
+  | 'K' :: r => (parseVal (String.ofList r)).map Dflt.const
+  | 'P' :: r => match splitC (String.ofList r) ':' with
+    | [p, tbl, fb] => do
+      let parent ← p.toNat?
+      let ents ← (if tbl = "" then some [] else
+        (splitC tbl '/').mapM fun e => match splitC e '=' with
+          | [k, v] => do pure ((← k.toInt?), (← parseVal v))
+          | _ => none)
+      pure (.preset parent ents (← parseVal fb))
+    | _ => none
+  | _ => none
+
+def parseGuards (s : String) : Option (List (Nat × Bool)) :=
+  if s = "-" then some [] else
+  (splitC s '.').mapM fun g =>
+    match g.toList.reverse with
+    | 'p' :: r => (String.ofList r.reverse).toNat?.map fun n => (n, true)
+    | 'e' :: r => (String.ofList r.reverse).toNat?.map fun n => (n, false)
+    | _ => none
+
+def parseNats (s : String) : Option (List Nat) :=
+  if s = "-" then some [] else (splitC s '.').mapM String.toNat?
+
+def parseParam (s : String) : Option Param :=
+  match splitC s ',' with
+  | [a, k, d, g, an, c] => do
+    pure { addr := a.toList, kind := ← parseKind k, dflt := ← parseDflt d, guards := ← parseGuards g,
+           anc := ← parseNats an, canon := ← parseVal c }
+  | _ => none
+
+def parseItem (s : String) : Option Item :=
+  match s.toList with
+  | 's' :: r => (String.ofList r).toNat?.map Item.scalar
+  | 'a' :: r => match splitC (String.ofList r) ':' with
+    | [b, f, l] => do pure (.array b.toList (← f.toNat?) (← l.toNat?))
+    | _ => none
+  | _ => none
+
+def optPath (s : String) : Option (Option Path) :=
+  if s = "-" then some none else (hexToPath s).map some
+
+structure TreeEnt where
+  depth : Nat
+  name : Path
+  deps : DepMeta
+
+def parseTreeEnt (s : String) : Option TreeEnt :=
+  match splitC s ',' with
+  | [d, n, a, b, c] => do
+    pure { depth := ← d.toNat?, name := ← hexToPath n,
+           deps := { enabledBy := ← optPath a, depends := ← optPath b, defaultDepends := ← optPath c } }
+  | _ => none
+
+/-- rebuild the tree from the pre-order list: entries of depth `d`, each followed by its
+    deeper entries -/
+def buildTree : Nat → Nat → List TreeEnt → List PNode × List TreeEnt
+  | 0, _, es => ([], es)
+  | _, _, [] => ([], [])
+  | fuel + 1, d, e :: es =>
+    if e.depth < d then ([], e :: es)
+    else
+      let (kids, rest) := buildTree fuel (d + 1) es
+      let (sibs, rest') := buildTree fuel d rest
+      (PNode.mk e.name e.deps kids :: sibs, rest')
+
+def parseApp (s : String) : Option App :=
+  match splitC s '|' with
+  | [name, ps, ws, ts] => do
+    let params ← (if ps = "" then some [] else (splitC ps ';').mapM parseParam)
+    let walk ← (if ws = "" then some [] else (splitC ws ';').mapM parseItem)
+    let ents ← (if ts = "" then some [] else (splitC ts ';').mapM parseTreeEnt)
+    let tree := (buildTree (2 * ents.length + 2) 0 ents).1
+    pure { name := name.toList, params := params, walk := walk, apropos := aproposTree tree }
+  | _ => none
+
+def parseHist (s : String) : Option (List (Path × List Val)) :=
+  if s = "-" then some [] else
+  (splitC s ';').mapM fun m => match splitC m '~' with
+    | [a, t, p] => (parseVal (t ++ p)).map fun v => (a.toList, [v])
+    | _ => none
+
+/-! ### canonical output -/
+def toHexChars (p : Path) : String := String.join (p.map fun c => hexByte (UInt8.ofNat c.toNat))
+
+def showVal : Val → String
+  | .int i => s!"i{i}"
+  | .chr c => s!"c{c}"
+  | .flt b => "f" ++ String.join ((List.range 4).reverse.map fun k => hexByte (UInt8.ofNat (b.toNat / 256 ^ k % 256)))
+  | .bool true => "T"
+  | .bool false => "F"
+  | .sym s => "S" ++ toHexChars s
+  | .str bs => "s" ++ String.join (bs.map hexByte)
+
+def strLt (a b : String) : Bool := pathLt a.toList b.toList
+
+def insertSorted (x : String) : List String → List String
+  | [] => [x]
+  | y :: r => if strLt x y then x :: y :: r else y :: insertSorted x r
+
+def sortStrs (l : List String) : List String := l.foldr insertSorted []
+
+def joinOr (l : List String) (sep : String) : String := if l.isEmpty then "-" else sep.intercalate l
+
+def showFields (app : App) (s : State) : String :=
+  joinOr (sortStrs ((List.range app.size).filterMap fun i =>
+    let p := app.param i
+    if guardsOn p s then some (String.ofList p.addr ++ "=" ++ showVal (s i)) else none)) ","
+
+def showLine (l : Line) : String :=
+  String.ofList l.addr ++ ":" ++
+  match l.args with
+  | .plain vs => ";".intercalate (vs.map showVal)
+  | .arr vs => "[" ++ ";".intercalate (vs.map showVal) ++ "]"
+
+def showLines (ls : List Line) : String := joinOr (sortStrs (ls.map showLine)) ","
+
+def showRes : LoadRes → String
+  | .ok s n => s!"R {n}"
+  | .fail => "R neg"
+  | .undefined => "R undefined"
+
+def showResF (app : App) : LoadRes → String
+  | .ok s n => s!"R {n} F {showFields app s}"
+  | .fail => "R neg F -"
+  | .undefined => "R undefined F -"
+
+/-! ### permutations (same enumeration as the harness) -/
+def insertAll (x : Nat) : List Nat → List (List Nat)
+  | [] => [[x]]
+  | y :: r => (x :: y :: r) :: (insertAll x r).map (y :: ·)
+
+/-- lexicographic `std::next_permutation` order starting from the identity -/
+def permsLex : Nat → List Nat → List (List Nat)
+  | 0, _ => [[]]
+  | _, [] => [[]]
+  | fuel + 1, l => l.flatMap fun x => (permsLex fuel (l.erase x)).map (x :: ·)
+
+def lcg (x : Nat) : Nat := (x * 1103515245 + 12345) % 2147483648
+
+def swapAt (l : List Nat) (i j : Nat) : List Nat :=
+  let a := l.getD i 0
+  let b := l.getD j 0
+  (l.set i b).set j a
+
+/-- `for(i = n-1; i >= 1; --i) { j = lcg(x) % (i+1); swap(p[i], p[j]); }`, started as `shuffle (n-1)` -/
+def shuffle : Nat → List Nat → Nat → List Nat × Nat
+  | 0, p, x => (p, x)
+  | i + 1, p, x =>
+    let x' := lcg x
+    let j := x' % (i + 2)
+    shuffle i (swapAt p (i + 1) j) x'
+
+def randomPerms : Nat → Nat → Nat → List (List Nat)
+  | 0, _, _ => []
+  | k + 1, n, x =>
+    let (p, x') := shuffle (n - 1) (List.range n) x
+    p :: randomPerms k n x'
+
+def sameRes (app : App) (a b : LoadRes) : Bool :=
+  showResF app a == showResF app b
+
+def step (line : String) : String :=
+  match words line with
+  | mode :: _ :: desc :: hist :: x1 :: x2 :: _ =>
+    match parseApp desc, parseHist hist with
+    | some app, some h =>
+      let s := app.run h app.init
+      let ver : Nat × Nat × Nat := (0, 0, 0)
+      let file := app.saveFile ver (1, 2, 3) s
+      let lines := app.save s
+      if mode = "txt" then "TXT -" else
+      if mode = "sl" then
+        let r := app.loadFile file app.init
+        s!"O {showFields app s} S {showLines lines} H 1 {showResF app r}"
+      else if mode = "bad" then
+        let n := lines.length
+        let f : Option File :=
+          if x1 = "magic" then some { file with magic := false }
+          else if x1 = "rver" then
+            match (splitC x2 '.').map String.toNat? with
+            | [some a, some b, some c] => some { file with rtoscVer := (a, b, c) }
+            | _ => none
+          else if x1 = "app" then some { file with appName := x2.toList }
+          else if x1 = "aver" then
+            match (splitC x2 '.').map String.toNat? with
+            | [some a, some b, some c] => some { file with appVer := (a, b, c) }
+            | _ => none
+          else if x1 = "parse" then
+            x2.toNat?.map fun k =>
+              let k := k % (n + 1)
+              { file with body := file.body.take k ++ [none] ++ file.body.drop k }
+          else if x1 = "line" then
+            match splitC x2 ':' with
+            | [ks, m] =>
+              match ks.toNat?, parseHist m with
+              | some k, some [(a, vs)] =>
+                let k := k % (n + 1)
+                some { file with body := file.body.take k ++ [some ⟨a, .plain vs⟩] ++ file.body.drop k }
+              | _, _ => none
+            | _ => none
+          else none
+        match f with
+        | none => "bad-op"
+        | some f => showResF app (app.loadFile f app.init)
+      else if mode = "perm" then
+        let n := lines.length
+        let r0 := app.loadFile file app.init
+        let perms := if n ≤ 6 then permsLex (n + 1) (List.range n)
+                     else randomPerms (x2.toNat?.getD 0) n (x1.toNat?.getD 0)
+        let bad := perms.find? fun p =>
+          let ls := p.filterMap fun i => lines[i]?
+          !sameRes app (app.loadFile { file with body := ls.map some } app.init) r0
+        let tail := match bad with
+          | none => s!"SAME 1"
+          | some p =>
+            let ls := p.filterMap fun i => lines[i]?
+            "SAME 0 W " ++ ".".intercalate (p.map toString) ++ " " ++
+              showResF app (app.loadFile { file with body := ls.map some } app.init)
+        let cnt := match bad with
+          | none => perms.length
+          | some p => perms.idxOf p + 1
+        s!"N {n} P {cnt} O {showFields app s} {showResF app r0} {tail}"
+      else "bad-op"
+    | _, _ => "bad-op"
+  | _ => "bad-op"
+
+def engine : Driver.Engine := Driver.stateless step
 end Driver.SaveEngine
